@@ -22,7 +22,7 @@ DRIVERS = [
     ("registry_driver", "ExtractRegistry.v", "registry_model.ml", "registry_driver.ml"),
     ("observer_driver", "ExtractObserver.v", "observer_model.ml", "observer_driver.ml"),
 ]
-GO_PKGS = ["proxy", "encryption", "interceptor", "collect", "proto/compat", "transport/mux"]
+GO_PKGS = ["proxy", "encryption", "interceptor", "collect", "config", "proto/compat", "transport/mux"]
 
 
 def main():
